@@ -415,7 +415,6 @@ func runTamper(r *ev.Run) {
 		runTamperV2(r, configs[3], false)
 		runTamperV1(r, configs[0])
 	}
-	runWarm(r)
 	r.RequireSetAtLeast("c_rings_enumerated", 18)
 	r.RequireSetAtLeast("c_byte_value_rings_enumerated", 18)
 	r.RequireSetAtLeast("c_v1_files_enumerated", 10)
